@@ -188,7 +188,7 @@ def collect(ctx, prop):
         nmc, nrand = 2500, 1500
     else:
         r, scripts = design_check_and_scripts(ctx, 4, "{1, 2, 3, 5, 253, 255}")
-        nmc, nrand = 100000, 15000        # of ~275 000 emitted scripts: all short ones + a seeded sample (a full replay takes 45 min per property)
+        nmc, nrand = 60000, 10000         # of ~275 000 emitted scripts: all short ones + a seeded sample (a full replay takes 45 min per property)
     ctx.log("design check: %d states, %d distinct; %d scripts emitted" % (r["states"], r["distinct"], len(scripts)))
     total_scripts = len(scripts)
     if len(scripts) > nmc:
@@ -204,7 +204,7 @@ def collect(ctx, prop):
             s["sids"] = rng.sample([0, 1, 0x80000000, 0xffffffff, 0x00000100, 0x7fffffff], 4)
     scen += [reuse_scenario(rng, i) for i in range(40 if quick else 600)]
     if prop in ("C08", "C07", "C20"):
-        scen += [manysess_scenario(rng, i, 200 if i % 2 == 0 else 140) for i in range(6 if quick else 60)]
+        scen += [manysess_scenario(rng, i, 200 if i % 2 == 0 else 140) for i in range(6 if quick else 24)]
     byid = {s["id"]: s for s in scen}
     sf = ctx.path("scen.ndjson")
     with open(sf, "w") as f:
@@ -217,8 +217,8 @@ def collect(ctx, prop):
     ctx.log("harness: %s" % stats)
     # 3. trace validation
     os.makedirs(ctx.path("chunks"), exist_ok=True)
-    chunks = split_trace(tf, NCPU * (1 if quick else 4), ctx.path("chunks"))
-    res = validate_chunks(ctx, "Trace_Server", chunks)
+    chunks = split_trace(tf, NCPU * (1 if quick else 8), ctx.path("chunks"))
+    res = validate_chunks(ctx, "Trace_Server", chunks, timeout=1800 if quick else 5400)
     pvs, divs = [], []
     for rr in res:
         for line in rr["out"].splitlines():
